@@ -457,3 +457,162 @@ def corpus_print(tier, seed, derives=PRINTERS, with_forward=True, with_prefix=Tr
             kw['const_into_str'] = True
         A(vs, **kw)
     return out
+
+
+# ---------------------------------------------------------------------------------------
+# C09 EnumDiscriminants
+
+def corpus_disc(tier, seed):
+    nm = Namer()
+    out = []
+    def A(vs, stem='Dc', **kw):
+        p = parse_prog(nm, vs, stem=stem, derives=('EnumDiscriminants',), **kw)
+        p.std_derives = ['Debug']
+        out.append(p)
+        return p
+    A([V('Red'), V('Green'), V('Blue')])
+    p = A([V('Red'), V('Blue', 'tuple', ['u8', 'i32']), V('Green', 'named', ['bool'])], repr='u8')
+    p.variants[0].disc, p.variants[1].disc = '3', '7'
+    p = A([V('Unit'), V('Gone', disabled=True), V('Borrowed', 'tuple', ['u8', "&'a T"]), V('Owned', 'named', ['T', 'usize'])], where_clause='where T: Clone')
+    p = A([V('Neg'), V('Gone', 'tuple', ['u8'], disabled=True), V('Expr'), V('Next')], repr='i8')
+    p.variants[0].disc, p.variants[2].disc = '-3', '10 - 2'
+    p = A([V('Alpha'), V('Beta', 'tuple', ['Tag'])])
+    p.disc_attrs = ['derive(Hash, PartialOrd)', 'name(%sKind)' % p.name, 'vis(pub)']
+    p.disc_name = p.name + 'Kind'
+    p = A([V('One'), V('Two', 'tuple', ['u8'])])
+    p.generics_decl, p.generics_use = '<const K: usize>', '<K>'
+    p = A([V('Hidden'), V('Shown', 'named', ['u8'])])
+    p.disc_attrs = ['vis(pub(crate))']
+    p.tags.append('restricted_vis')
+    p = A([V('A'), V('B'), V('C'), V('D')], repr='u16')
+    p.variants[0].disc, p.variants[2].disc = '500', '2'
+    if tier == 'quick':
+        return out
+    rnd = random.Random(seed * 31 + 9)
+    idents = ['Red', 'Blue', 'Green', 'Yellow', 'Teal', 'Pink', 'Gray']
+    for k in range(40):
+        n = 1 + k % 6
+        repr_ = [None, 'u8', 'i8', 'u16', 'i32', 'u64', 'i64', 'usize', 'isize'][k % 9]
+        payload = (k % 3 != 0)
+        vs = []
+        for i in range(n):
+            kind = ['unit', 'tuple', 'named'][(k + i) % 3] if payload else 'unit'
+            tys = {'unit': [], 'tuple': [TYPES[(k + i) % 5], 'T'] if k % 4 == 1 else [TYPES[(k + i) % 5]], 'named': [TYPES[(k + i + 1) % 5]]}[kind]
+            vs.append(V(idents[i], kind, tys, disabled=((k + i) % 9 == 4)))
+        p = A(vs, repr=repr_)
+        if repr_ is not None or not payload:
+            signed = (repr_ or 'isize').startswith('i')
+            pat = ['implicit', 'explicit', 'negative', 'gapped', 'descending'][k % 5]
+            ds = disc_pattern(pat, n, signed, 8)
+            for v, d in zip(p.variants, ds):
+                v.disc = d
+        if k % 7 == 3:
+            p.disc_attrs = ['name(%sTag)' % p.name, 'derive(Hash)']
+            p.disc_name = p.name + 'Tag'
+    return out
+
+# ---------------------------------------------------------------------------------------
+# C13 EnumIs / EnumTryAs
+
+IS_IDENTS = ['Red', 'Blue2', 'HTTPStatus', 'X1Y2', 'GreenLeaf', 'A', 'Orange9Light', 'NASARocket3']
+
+def corpus_is(tier, seed):
+    nm = Namer()
+    out = []
+    def A(vs, **kw):
+        p = parse_prog(nm, vs, stem='Is', derives=('EnumIs', 'EnumTryAs'), **kw)
+        out.append(p)
+        return p
+    A([V('Red'), V('Blue2', 'tuple', ['u8']), V('HTTPStatus', 'tuple', ['i32', 'bool']), V('GreenLeaf', 'named', ['usize'])])
+    A([V('X1Y2', 'tuple', ['u8', 'i32', 'bool']), V('Gone', 'tuple', ['u8'], disabled=True), V('A'), V('Orange9Light', 'tuple', ['Tag'])])
+    A([V('Unit'), V('Gen', 'tuple', ['T']), V('Pair', 'tuple', ['T', 'u8']), V('Named', 'named', ['T', 'u8'])])
+    A([V('Ref', 'tuple', ["&'a str", 'u8']), V('NASARocket3'), V('Gone', disabled=True)])
+    A([V('Only', 'tuple', ['usize'])])
+    if tier == 'quick':
+        return out
+    for k in range(30):
+        n = 1 + k % 6
+        vs = []
+        for i in range(n):
+            kind = ['unit', 'tuple', 'named', 'tuple'][(k + i) % 4]
+            nf = 1 + (k + i) % 3
+            tys = {'unit': [], 'tuple': [['u8', 'i32', 'bool', 'usize', 'T', 'Tag'][(k + i + j) % 6] for j in range(nf)], 'named': [TYPES[(k + i) % 4]]}[kind]
+            vs.append(V(IS_IDENTS[(i + k) % len(IS_IDENTS)], kind, tys, disabled=((k + i) % 7 == 5)))
+        A(vs)
+    return out
+
+# ---------------------------------------------------------------------------------------
+# C14 EnumMessage / C15 EnumProperty
+
+DOCS = [[], [' doc one'], ['  two spaces', ' second'], ['no leading space', '', ' after an empty line'], [' quote " backslash \\ brace {x}', ' \u00fcnicode', ' third', '    indented']]
+
+def corpus_msg(tier, seed):
+    nm = Namer()
+    out = []
+    def A(vs, **kw):
+        p = parse_prog(nm, vs, stem='Ms', derives=('EnumMessage',), **kw)
+        out.append(p)
+        return p
+    def M(v, message=None, detailed=None, docs=()):
+        v.message, v.detailed_message, v.docs = message, detailed, list(docs)
+        return v
+    A([M(V('A'), 'm', 'dm', DOCS[1]), M(V('B', 'tuple', ['u8']), 'only', None, DOCS[2]), M(V('C', 'named', ['u8'], disabled=True, ser=['cc', 'c2']), None, 'onlyd', DOCS[1]), M(V('D'))])
+    A([M(V('RedFox'), None, 'detail only', DOCS[3]), M(V('BlueSky', ts='bleu'), '', '', DOCS[4]), M(V('Gone', disabled=True), 'hidden', 'hidden', DOCS[2]), M(V('Plain', ser=['p', 'plain']), 'msg')], serialize_all='snake_case')
+    A([M(V('G', 'tuple', ['T']), 'generic', None, DOCS[1]), M(V('H'))])
+    A([M(V('GoneA', disabled=True), 'x'), M(V('GoneB', disabled=True))])
+    if tier == 'quick':
+        return out
+    styles = [None, 'kebab-case', 'SCREAMING_SNAKE_CASE', 'camelCase', 'title_case']
+    for k in range(30):
+        n = 1 + k % 5
+        vs = []
+        for i in range(n):
+            kind = ['unit', 'tuple', 'named'][(k + i) % 3]
+            tys = {'unit': [], 'tuple': [TYPES[(k + i) % 5]], 'named': [TYPES[(k + i + 1) % 5]]}[kind]
+            stem = STEMS[(i + k) % len(STEMS)]
+            v = V(IS_IDENTS[(i + k) % len(IS_IDENTS)], kind, tys, disabled=((k + i) % 6 == 2),
+                  ser=[[], [stem], [stem, stem.upper() + '2']][(k + i) % 3], ts=[None, None, stem + '!'][(k + 2 * i) % 3])
+            M(v, [None, 'msg %d' % i, ''][(k + i) % 3], [None, 'detail %d' % i][(k // 2 + i) % 2], DOCS[(k + i) % len(DOCS)])
+            vs.append(v)
+        A(vs, serialize_all=styles[k % len(styles)])
+    return out
+
+def corpus_props(tier, seed):
+    nm = Namer()
+    out = []
+    def A(vs, **kw):
+        p = parse_prog(nm, vs, stem='Pp', derives=('EnumProperty',), **kw)
+        out.append(p)
+        return p
+    def P(v, *groups):
+        v.props = [list(g) for g in groups]
+        return v
+    A([P(V('A'), [('a', 'x'), ('b', 3), ('c', True)], [('Type', 'kw')]), P(V('B', 'tuple', ['u8']), [('a', 7)], [('b', 'str-here')], [('c', 'c'), ('d', False)]),
+       P(V('C', 'named', ['u8'], disabled=True), [('a', 'hidden')]), V('D')])
+    A([P(V('Neg'), [('n', -3), ('big', 9223372036854775807), ('zero', 0)]), P(V('Empty'), [('s', ''), ('u', '\u00fc \"q\"')]), P(V('Gen', 'tuple', ['T']), [('n', 'not-an-int')])])
+    A([V('NoProps'), V('Gone', disabled=True)])
+    if tier == 'quick':
+        return out
+    keys = ['a', 'b', 'c', 'color', 'Type', 'x1']
+    vals = ['x', 3, True, '', -17, False, 'long value with spaces', 255, 'k']
+    for k in range(30):
+        n = 1 + k % 5
+        vs = []
+        for i in range(n):
+            kind = ['unit', 'tuple', 'named'][(k + i) % 3]
+            tys = {'unit': [], 'tuple': [TYPES[(k + i) % 5]], 'named': [TYPES[(k + i + 1) % 5]]}[kind]
+            v = V(IS_IDENTS[(i + k) % len(IS_IDENTS)], kind, tys, disabled=((k + i) % 6 == 4))
+            np_ = (k + i) % 7
+            used = []
+            groups = [[] for _ in range(1 + (k + i) % 3)]
+            for j in range(min(np_, 6)):
+                key = keys[(k + i + j) % len(keys)]
+                val = vals[(k + 2 * i + j) % len(vals)]
+                if (key, type(val)) in used or key in [u[0] for u in used]:
+                    continue
+                used.append((key, type(val)))
+                groups[j % len(groups)].append((key, val))
+            v.props = [g for g in groups if g]
+            vs.append(v)
+        A(vs)
+    return out
